@@ -1,0 +1,23 @@
+//go:build verif
+
+package syntax
+
+// Bits of the verif-only switch that disables individual semantics-preserving
+// tree rewrites, so an external harness can compare a pattern compiled with and
+// without them.
+const (
+	VerifNoAutoAtomic         = 1 << iota // findAndMakeLoopsAtomic
+	VerifNoEndingBacktrack                // eliminateEndingBacktracking (root, atomic, lookaround, conditional)
+	VerifNoBumpalong                      // UpdateBumpalong marker
+	VerifNoPrefixText                     // extractCommonPrefixText
+	VerifNoPrefixOneNotoneSet             // extractCommonPrefixOneNotoneSet
+	VerifNoAtomicAlternate                // empty-branch trimming and reordering of atomic alternations
+	VerifNoAtomicLoopFold                 // folding (?>loop) into an atomic loop node
+	VerifNoRewritesAll        = 1<<iota - 1
+)
+
+var verifRewritesOff uint32
+
+// VerifSetRewritesOff sets the mask of disabled rewrites. Not synchronised:
+// callers compile from one goroutine while they toggle it.
+func VerifSetRewritesOff(mask uint32) { verifRewritesOff = mask }
